@@ -179,5 +179,5 @@ def run(ctx):
     for dm in ("reorg", "clear_caches", "commit_changes"):
         T.clause_tables(R, F, dm, only_fields=chain_tables)
     # lookups answer the same whether or not the rows were committed: cache before disk, unset shadows disk
-    T.clause_read_merge(R, F)
+    T.clause_read_merge(R, F, scans=("get_range",))
     return R
